@@ -8,6 +8,7 @@ mod canon;
 mod cases;
 mod codec;
 mod conc;
+mod indep;
 mod misc;
 
 use std::io::{BufRead, Write};
